@@ -264,7 +264,8 @@ theorem updAt_length (f : RefSt → RefSt) : ∀ (i : Nat) (l : List RefSt), (up
 
 theorem addRecord_inv (linear : Bool) (ms d N R : Nat) (st st' : St) (c : Call) (h : StInv ms d N R st)
     (hv : c.Valid ms d R) (hs : addRecord linear ms d st c = some st') : StInv ms d (N+1) R st' := by
-  unfold addRecord at hs
+  rw [addRecord_eq_core linear ms d R st c hv] at hs
+  unfold addRecordCore at hs
   cases hctx : c.ctx with
   | none =>
     rw [hctx] at hs; simp at hs; subst hs
